@@ -21,7 +21,9 @@ THEOREMS = ["ElfioVerif.C05.save_writes_fields",
             "ElfioVerif.C05.wsdStep_equidistant",
             "ElfioVerif.C05.image_bytes_at_same_vaddr",
             "ElfioVerif.C05.loaded_resave_fields",
-            "ElfioVerif.C05.loaded_resave_names"]
+            "ElfioVerif.C05.loaded_resave_names",
+            "ElfioVerif.C05.edit_frame",
+            "ElfioVerif.C05.edit_frame_add_section"]
 SITES = ["save_", "lsws", "lst_", "lseg", "wsd", "load_s", "sec32_load", "sec64_load"]
 RULE = ("well-formed images whose segment contents are covered by sections (encoder-built linker-like images in 4 "
         "configurations; bundled examples that load) x edit histories {none, add section, append to an unsegmented "
